@@ -558,19 +558,74 @@ impl ByteValued for u8 {}
 /// callee-precondition trick for the window a generic stream is handed: `accepts` is abstract for a
 /// generic F, so the only way to discharge it is the caller's own precondition, which names exactly
 /// the permitted window (the in-memory streams accept any valid slice)
-pub trait ReadVolatile {
+pub trait ReadVolatile: Sized {
     spec fn accepts<B: BitmapSlice>(&self, s: VolatileSlice<B>) -> bool;
+    /// ghost position of the stream: how many bytes it has delivered so far
+    spec fn pos(&self) -> int;
     fn read_volatile<B: BitmapSlice>(&mut self, buf: &mut VolatileSlice<B>) -> (r: Result<usize>)
         requires old(buf).wf(), // [C01]
-            old(self).accepts(*old(buf)), // [C01,C04,C03]
-        ensures *final(buf) == *old(buf);
+            old(self).accepts(*old(buf)), // [C01,C04,C03,C14]
+        ensures *final(buf) == *old(buf),
+            r matches Ok(n) ==> final(self).pos() == old(self).pos() + n;
+
+    // The exact loop.  Extraction drops the retry_eintr! wrapper (see above).  Proved for every stream
+    // behaviour (any sequence of short counts, zero, errors, even counts larger than the window): each
+    // call is handed exactly the not-yet-filled rest of `buf` -- the window starts where the bytes
+    // delivered so far end -- Ok(()) is returned precisely when the whole buffer was filled, an empty
+    // buffer makes no call at all, and the loop terminates.
+//@fn src/io.rs :: pub trait ReadVolatile :: read_exact_volatile :: tags=C13,C14,C18,C07,C01
+//@sub Result<\(\), VolatileMemoryError> => Result<()>
+//@sub (?m)retry_eintr!\((.*)\)\) \{$ => \1) {
+//@sub (?s)VolatileMemoryError::IOError\(std::io::Error::new\(\s*ErrorKind::UnexpectedEof,\s*"failed to fill whole buffer",\s*\)\) => Error::IOError(io_error_new())
+//@spec
+    requires old(buf).wf(),
+        forall|st: Self, s: VolatileSlice<B>| #![trigger st.accepts(s)] s.is_sub(old(buf), st.pos() - old(self).pos(), old(buf).size - (st.pos() - old(self).pos())) ==> st.accepts(s), // [C14,C13,C01]
+    ensures *final(buf) == *old(buf),
+        r is Ok ==> final(self).pos() == old(self).pos() + old(buf).size, // [C14,C13]
+        old(buf).size == 0 ==> r is Ok && final(self).pos() == old(self).pos(), // [C18]
+//@end
+//@loop 1
+            invariant
+                *buf == *old(buf), buf.wf(),
+                0 <= self.pos() - old(self).pos() <= buf.size,
+                partial_buf.is_sub(buf, self.pos() - old(self).pos(), buf.size - (self.pos() - old(self).pos())),
+                forall|st: Self, s: VolatileSlice<B>| #![trigger st.accepts(s)] s.is_sub(old(buf), st.pos() - old(self).pos(), old(buf).size - (st.pos() - old(self).pos())) ==> st.accepts(s),
+            decreases partial_buf.size,
+//@end
+//@canary restart_from_buf :: partial_buf = partial_buf\.offset\(bytes_read\) => partial_buf = buf.offset(bytes_read)
+//@endfn
 }
-pub trait WriteVolatile {
+pub trait WriteVolatile: Sized {
     spec fn accepts<B: BitmapSlice>(&self, s: VolatileSlice<B>) -> bool;
+    spec fn pos(&self) -> int;
     fn write_volatile<B: BitmapSlice>(&mut self, buf: &VolatileSlice<B>) -> (r: Result<usize>)
         requires buf.wf(), // [C01]
-            old(self).accepts(*buf); // [C01,C04,C03]
+            old(self).accepts(*buf), // [C01,C04,C03,C14]
+        ensures r matches Ok(n) ==> final(self).pos() == old(self).pos() + n;
+
+//@fn src/io.rs :: pub trait WriteVolatile :: write_all_volatile :: tags=C13,C14,C18,C07,C01
+//@sub Result<\(\), VolatileMemoryError> => Result<()>
+//@sub (?m)retry_eintr!\((.*)\)\) \{$ => \1) {
+//@sub (?s)VolatileMemoryError::IOError\(std::io::Error::new\(\s*ErrorKind::WriteZero,\s*"failed to write whole buffer",\s*\)\) => Error::IOError(io_error_new())
+//@spec
+    requires buf.wf(),
+        forall|st: Self, s: VolatileSlice<B>| #![trigger st.accepts(s)] s.is_sub(buf, st.pos() - old(self).pos(), buf.size - (st.pos() - old(self).pos())) ==> st.accepts(s), // [C14,C13,C01]
+    ensures
+        r is Ok ==> final(self).pos() == old(self).pos() + buf.size, // [C14,C13]
+        buf.size == 0 ==> r is Ok && final(self).pos() == old(self).pos(), // [C18]
+//@end
+//@loop 1
+            invariant
+                buf.wf(),
+                0 <= self.pos() - old(self).pos() <= buf.size,
+                partial_buf.is_sub(buf, self.pos() - old(self).pos(), buf.size - (self.pos() - old(self).pos())),
+                forall|st: Self, s: VolatileSlice<B>| #![trigger st.accepts(s)] s.is_sub(buf, st.pos() - old(self).pos(), buf.size - (st.pos() - old(self).pos())) ==> st.accepts(s),
+            decreases partial_buf.size,
+//@end
+//@endfn
 }
+#[verifier::external_body]
+pub fn io_error_new() -> IoError { unimplemented!() }
 
 // ------------------------------------------------------------------ io.rs: descriptor transfers (one syscall each)
 pub trait AsRawFd { fn as_raw_fd(&self) -> i32; }
@@ -625,6 +680,7 @@ pub fn last_os_error() -> IoError { unimplemented!() }
 
 impl ReadVolatile for &[u8] {
     open spec fn accepts<B: BitmapSlice>(&self, s: VolatileSlice<B>) -> bool { true }
+    open spec fn pos(&self) -> int { -(self@.len() as int) }
 //@fn src/io.rs :: impl ReadVolatile for &\[u8\] :: read_volatile :: tags=C04,C07,C13
 //@sub Result<usize, VolatileMemoryError> => Result<usize>
 //@sub self\.as_ptr\(\) => slice_as_ptr(*self)
@@ -637,6 +693,7 @@ impl ReadVolatile for &[u8] {
 
 impl WriteVolatile for &mut [u8] {
     open spec fn accepts<B: BitmapSlice>(&self, s: VolatileSlice<B>) -> bool { true }
+    open spec fn pos(&self) -> int { -(self@.len() as int) }
     // body uses std::mem::take + split_at_mut (reborrow juggling Verus has no spec for): verified by
     // Kani (K-io, C13) against std's own Write for &mut [u8]; here the same contract is assumed.
     #[verifier::external_body]
@@ -700,6 +757,30 @@ impl<B: BitmapSlice> VolatileSlice<'_, B> {
     ensures addr > self.size ==> r is Err, // [C01,C04]
 //@end
 //@canary whole_rest :: vmin\(slice\.len\(\), count\) => slice.len()
+//@endfn
+// the exact stream forms: the window [addr, addr+count) is carved out (or the request refused) and handed
+// to the stream's exact loop (contract above)
+//@fn src/volatile_memory.rs :: impl<B: BitmapSlice> Bytes<usize> for VolatileSlice<'_, B> :: read_exact_volatile_from :: tags=C01,C04,C07,C18,C14
+//@spec
+    requires self.wf(),
+        forall|st: F, w: VolatileSlice<B>, s: VolatileSlice<B>| #![trigger st.accepts(s), self.vm_sub(&w, addr as int, count as int)] self.vm_sub(&w, addr as int, count as int)
+            && s.is_sub(&w, st.pos() - old(src).pos(), count - (st.pos() - old(src).pos())) ==> st.accepts(s), // [C14,C01,C04]
+    ensures addr + count > self.size ==> r is Err, // [C01,C04]
+        r is Ok ==> final(src).pos() == old(src).pos() + count, // [C14]
+        count == 0 && addr <= self.size ==> r is Ok && final(src).pos() == old(src).pos(), // [C18]
+//@end
+//@canary window_from_zero :: self\.get_slice\(addr, count\) => self.get_slice(0, count)
+//@endfn
+//@fn src/volatile_memory.rs :: impl<B: BitmapSlice> Bytes<usize> for VolatileSlice<'_, B> :: write_all_volatile_to :: tags=C01,C04,C07,C18,C14
+//@spec
+    requires self.wf(),
+        forall|st: F, w: VolatileSlice<B>, s: VolatileSlice<B>| #![trigger st.accepts(s), self.vm_sub(&w, addr as int, count as int)] self.vm_sub(&w, addr as int, count as int)
+            && s.is_sub(&w, st.pos() - old(dst).pos(), count - (st.pos() - old(dst).pos())) ==> st.accepts(s), // [C14,C01,C04]
+    ensures addr + count > self.size ==> r is Err, // [C01,C04]
+        r is Ok ==> final(dst).pos() == old(dst).pos() + count, // [C14]
+        count == 0 && addr <= self.size ==> r is Ok && final(dst).pos() == old(dst).pos(), // [C18]
+//@end
+//@canary window_from_zero :: self\.get_slice\(addr, count\) => self.get_slice(0, count)
 //@endfn
 //@fn src/volatile_memory.rs :: impl<B: BitmapSlice> Bytes<usize> for VolatileSlice<'_, B> :: write :: tags=C01,C04,C07,C18 
 //@spec
